@@ -16,7 +16,7 @@ import shutil
 
 from lib import batch, gen, pipecases, tlc
 from lib.core import Ctx
-from props import pipe_common
+from props import pipe_common, seeding
 
 LEVEL = "model_checking"
 MODES = ["best", "separate", "joined", "all", "single"]
@@ -200,6 +200,9 @@ def run(ctx: Ctx):
     mc = tlc.run_tlc("MC_Planted", "MC_Planted.cfg", ctx.workdir, workers=6, heap_gb=8)
     ctx.add_model("MC_Planted", mc)
     ctx.notes["what_is_exhaustive"] = "only the discrete lemma (MC_Planted); the numerical seeding is sampled"
+    # the seeding half, now a model of its own: MC_Seeding (a planted lattice copy has sample 1 = the global maximum at
+    # its true offset, and an exact locus that is a strict maximum is always seeded) + the real stage replayed by TLC
+    seeding.run_part(ctx, "C06", model=True)
     n = int(os.environ.get("C06_N", "0")) or (30 if quick else 1500)
     with mp.get_context("fork").Pool(min(14, n)) as pool:
         results = pool.map(one_input, [(ctx.seed * 37 + 6, i, ctx.workdir) for i in range(n)])
